@@ -46,7 +46,10 @@
   earlier rounds (now instances of the fragment: `forc_core` with `ValSim.of_var`).
 
   Still outside (exactly): what is outside Props/C01's expression fragment — `$ij`, index / isFirst / isLast,
-  keys, augmentMap, round / floor / ceiling, randomInt, a map literal repeating a key (except as {call} data).  Those are covered by the
+  round / floor / ceiling, randomInt, a map literal repeating a key (except as {call} data).
+
+  `loop_hides_only_its_variable`: a loop over `$x` changes the lookup of no variable name other than `x` (the
+  bookkeeping names `x.index` / `x.lastIndex` contain a '.').  Those are covered by the
   scoping theorems of Props/C02.lean and by the Spec.render oracle of the C02exec correspondence.
 -/
 import SoyVerif.Lemmas.ExecRefine
@@ -649,6 +652,29 @@ theorem Rel.set {ctx : Scope} {st st2 : St} {env : Spec.Eval.Env} {name : Bytes}
   split
   · rfl
   · exact hr.base.vars k hk
+
+omit hob hcall hreg hmsg hdir hcs in
+/-- A loop over `$x` changes the lookup of NO variable name other than `x`: in the frame an iteration runs in
+    (pushed, then `x.lastIndex`, `x`, `x.index` bound — the three `set`s of the {foreach} walk) every name
+    without a '.' other than `x` reads what it read before the loop.  (The bookkeeping names contain a '.',
+    which no variable name can: the loop hides no variable of the template.) -/
+theorem loop_hides_only_its_variable (var : Bytes) (x : Value) (last i : Int64) (ctx : Scope) (st st2 st3 st4 : St)
+    (hok : ScopeOk ctx st)
+    (h2 : Eval.set (push ctx st).1 (push ctx st).2 (var ++ sLastIndexSuffix) (.int last) = some st2)
+    (h3 : Eval.set (push ctx st).1 st2 var x = some st3)
+    (h4 : Eval.set (push ctx st).1 st3 (var ++ sIndexSuffix) (.int i) = some st4) :
+    ∀ k, k ≠ var → (46 : UInt8) ∉ k → lookup st4.heap (push ctx st).1 k = lookup st.heap ctx k := by
+  intro k hk hdot
+  obtain ⟨_, hown1, _, _⟩ := push_spec ctx st
+  have own2 := hown1.ext (set_ext hown1 h2)
+  have own3 := own2.ext (set_ext own2 h3)
+  rw [lookup_set own3 h4 k, lookup_set own2 h3 k, lookup_set hown1 h2 k, lookup_push ctx st hok k]
+  have n1 : (k == var ++ sIndexSuffix) = false := by
+    apply beq_false_of_ne; intro e; apply hdot; rw [e]; simp [sIndexSuffix]
+  have n2 : (k == var ++ sLastIndexSuffix) = false := by
+    apply beq_false_of_ne; intro e; apply hdot; rw [e]; simp [sLastIndexSuffix]
+  have n3 : (k == var) = false := by simpa using hk
+  simp [n1, n2, n3]
 
 omit hob in
 /-- the iterations of a {foreach}: each runs in a frame of its own that binds the loop variable (and the
@@ -2761,6 +2787,16 @@ example : (execute gAcc [116] dataAcc 4).cls = .ok ∧
       .val [97, 98, 58, 84, 50, 91, 49, 97, 93] := by rfl
   rw [hs] at h
   exact h
+
+/-- a loop over `$y` leaves `$x` (and every other name) as it was: the frame of an iteration of
+    `{foreach $y in …}` over the example scope -/
+example : ∃ st2 st3 st4,
+    Eval.set (push ctx0 st0).1 (push ctx0 st0).2 ([121] ++ sLastIndexSuffix) (.int 1) = some st2 ∧
+    Eval.set (push ctx0 st0).1 st2 [121] (.str [97]) = some st3 ∧
+    Eval.set (push ctx0 st0).1 st3 ([121] ++ sIndexSuffix) (.int 0) = some st4 ∧
+    lookup st4.heap (push ctx0 st0).1 [120] = lookup st0.heap ctx0 [120] :=
+  ⟨_, _, _, rfl, rfl, rfl, loop_hides_only_its_variable [121] (.str [97]) 1 0 ctx0 st0 _ _ _
+    (by intro f hf; simp [ctx0] at hf; rcases hf with rfl | rfl <;> simp [st0]) rfl rfl rfl [120] (by decide) (by decide)⟩
 
 /-- `{for $i in range(1, 4)}{$i}{/for}{$x}`: "123out" -/
 def body2 : Block :=
